@@ -28,11 +28,23 @@ package mqttproxy
 // usable again (bounded wait for the broker's own registry to drop the id, expiry = inconclusive,
 // then a sequential CONNECT must be accepted). A takeover arriving while the broker is full may be
 // accepted or refused (statement and docs are silent): counted as ambiguous.
+//
+// Administrative session delete (the broker's HTTP session-delete API, which is also what another
+// cluster member's delete looks like to this broker): the session record of a CONNECTED client is
+// deleted. What happens to the client is the broker's business - but whatever it is, the client either
+// keeps counting or stops being served. After the broker's registry has dropped the id the client
+// sends two PINGREQs: no PINGRESP means the broker has disconnected it (it leaves H); two PINGRESPs
+// mean it is still a connected, served client (it stays in H), and fresh ids then connect up to
+// cap+1 - so a client that is served but no longer counted shows as |H| > cap.
 
 import (
+	"bytes"
+	"encoding/json"
 	"fmt"
 	"io"
 	"net"
+	"net/http"
+	"net/http/httptest"
 	"os"
 	"reflect"
 	"sort"
@@ -87,6 +99,7 @@ type vfC17MRig struct {
 	reconnected map[string]bool // id was closed and connected again in this case
 	closedOnce  map[string]bool
 	cleanOf     map[string]bool
+	servedAfterDelete map[string]bool // answered two PINGREQs after its session record was deleted and the registry had dropped it
 
 	timeout bool
 
@@ -254,6 +267,9 @@ func (r *vfC17MRig) capKey(missing []string) string {
 		id := missing[0]
 		// what the missing holder's connection was: the connection the harness counts for the id, or a
 		// takeover of the id that is being answered right now (the broker may have processed it already)
+		if r.servedAfterDelete[id] {
+			return "session-delete: client whose session record was deleted stays connected and served but is no longer counted, then a further client is admitted"
+		}
 		how := r.held[id].how
 		if r.takingOver[id] {
 			how = "takeover"
@@ -448,7 +464,7 @@ func TestVerifC17Mqtt(t *testing.T) {
 			spec.Rules = []*Rule{{When: &When{PacketType: Connect}, Pipeline: "vf-auth"}}
 		}
 		r := &vfC17MRig{cap: capN, held: map[string]*vfC17Cli{}, tookOver: map[string]bool{}, takingOver: map[string]bool{}, reconnected: map[string]bool{}, holdIDs: map[string]bool{},
-			closedOnce: map[string]bool{}, cleanOf: map[string]bool{}}
+			closedOnce: map[string]bool{}, cleanOf: map[string]bool{}, servedAfterDelete: map[string]bool{}}
 		r.cond = sync.NewCond(&r.mu)
 		// The harness proposes the port (so that it never has to look at the broker's listener):
 		// candidates outside the kernel's ephemeral range, where no other process lands by accident;
@@ -521,6 +537,130 @@ func TestVerifC17Mqtt(t *testing.T) {
 				heldNow[id] = true
 			}
 			r.mu.Unlock()
+			// ---- administrative session delete of a connected client
+			if r.reg != nil && len(heldNow) > 0 && rapid.IntRange(0, 4).Draw(rt, "sessionDelete") == 0 {
+				hids := make([]string, 0, len(heldNow))
+				for id := range heldNow {
+					hids = append(hids, id)
+				}
+				sort.Strings(hids)
+				x := hids[rapid.IntRange(0, 63).Draw(rt, "deleteTarget")%len(hids)]
+				script = append(script, fmt.Sprintf("{session record of connected client %s deleted through the HTTP API; fresh ids connect up to cap+1}", x))
+				vf.Class("session-delete-of-a-connected-client")
+				if len(heldNow) >= capN {
+					vf.Class("session-delete-of-a-connected-client-while-broker-full")
+					nontrivial = true
+				}
+				r.mu.Lock()
+				r.logf("-- burst %d session record of %s deleted (held=%d)", bi, x, len(r.held))
+				xc := r.held[x]
+				r.mu.Unlock()
+				body, _ := json.Marshal(&HTTPSessions{Sessions: []*HTTPSession{{SessionID: x}}})
+				r.b.httpDeleteSessionHandler(httptest.NewRecorder(), httptest.NewRequest(http.MethodDelete, "/mqtt/sessions", bytes.NewReader(body)))
+				// completion signal: the broker's own registry no longer lists the id
+				deadline := time.Now().Add(vfC17MqttWait)
+				for {
+					if _, still := r.reg.ids()[x]; !still {
+						break
+					}
+					if time.Now().After(deadline) {
+						inconclusive = "broker registry still lists the client whose session record was deleted"
+						break
+					}
+					time.Sleep(200 * time.Microsecond)
+				}
+				if inconclusive == "" {
+					// two round trips: a connection the broker has flagged as gone may still get ONE answer
+					// out (its writer and its reader stop independently), never a second one
+					served := true
+					for i := 0; i < 2 && served; i++ {
+						packets.NewControlPacket(packets.Pingreq).Write(xc.conn)
+						xc.conn.SetReadDeadline(time.Now().Add(vfC17MqttWait))
+						p, err := packets.ReadPacket(xc.conn)
+						xc.conn.SetReadDeadline(time.Time{})
+						if err != nil {
+							if ne, ok := err.(net.Error); ok && ne.Timeout() {
+								inconclusive = "no answer to PINGREQ of the client whose session record was deleted, socket still open"
+							}
+							served = false
+						} else if _, ok := p.(*packets.PingrespPacket); !ok {
+							served = false
+						}
+					}
+					r.mu.Lock()
+					if served {
+						r.servedAfterDelete[x] = true
+						r.logf("%s#%d still served (2x PINGRESP) after its session record was deleted", x, xc.seq)
+						vf.Class("client-still-served-after-its-session-record-was-deleted")
+					} else if cur, ok := r.held[x]; ok && cur == xc {
+						delete(r.held, x)
+						r.closedOnce[x] = true
+						r.logf("%s#%d disconnected by the broker after its session record was deleted (held=%d)", x, xc.seq, len(r.held))
+						vf.Class("client-disconnected-by-the-broker-after-its-session-record-was-deleted")
+					}
+					r.mu.Unlock()
+					if !served {
+						vfC17HardClose(xc.conn)
+					}
+				}
+				// fresh ids connect one after the other: as many as there is room for, and one more
+				r.mu.Lock()
+				nFresh := capN - len(r.held) + 1
+				var freshIDs []string
+				for i := 0; i < nids && len(freshIDs) < nFresh; i++ {
+					if id := fmt.Sprintf("c%d", i); r.held[id] == nil {
+						freshIDs = append(freshIDs, id)
+					}
+				}
+				r.mu.Unlock()
+				for _, id := range freshIDs {
+					if inconclusive != "" {
+						break
+					}
+					fc, err := vfC17MDial(r.addr)
+					if err != nil {
+						inconclusive = "cannot dial the broker: " + err.Error()
+						break
+					}
+					connsMu.Lock()
+					allConns = append(allConns, fc)
+					connsMu.Unlock()
+					r.mu.Lock()
+					r.seq++
+					fcli := &vfC17Cli{id: id, seq: r.seq, clean: clean, conn: fc, how: "fresh"}
+					if r.closedOnce[id] {
+						r.reconnected[id] = true
+						fcli.how = "reconnect"
+					}
+					r.cleanOf[id] = clean
+					r.mu.Unlock()
+					out := vfC17Exchange(fc, id, clean)
+					r.mu.Lock()
+					switch {
+					case out == "accepted":
+						r.onAccepted(fcli)
+					case out == "unavailable":
+						sawRefused++
+						r.logf("%s#%d unavailable (held=%d)", id, fcli.seq, len(r.held))
+					case out == "timeout":
+						inconclusive = "no answer to a fresh CONNECT after a session delete"
+					default:
+						r.viols = append(r.viols, [2]string{"connect-answered-neither-accepted-nor-server-unavailable", fmt.Sprintf("CONNECT of %s after a session delete: %s", id, out)})
+					}
+					r.mu.Unlock()
+					if out != "accepted" {
+						vfC17HardClose(fc)
+					}
+				}
+				if finish() {
+					return
+				}
+				if !r.settle() {
+					inconclusive = "broker registry still lists clients whose sockets were closed"
+					break
+				}
+				continue
+			}
 			// ---- stale-takeover schedule
 			if withAuth && len(heldNow) > 0 && rapid.IntRange(0, 3).Draw(rt, "staleTakeover") == 0 {
 				hids := make([]string, 0, len(heldNow))
